@@ -26,6 +26,7 @@ type result struct {
 	H1    *obs      `json:"h1,omitempty"`
 	H2    *h2obs    `json:"h2,omitempty"`
 	Retry *retryObs `json:"retry,omitempty"`
+	H3    *h3obs    `json:"h3,omitempty"`
 }
 
 type job struct {
@@ -53,6 +54,14 @@ var h2specs = []h2spec{
 	{Name: "reuse-upload-bodiless", Reuse: true, Upload: true, Bodiless: true},
 }
 
+var h3specs = []h3spec{
+	{Name: "fresh-get"},
+	{Name: "fresh-upload", Upload: true},
+	{Name: "reuse-get", Reuse: true},
+	{Name: "reuse-upload-bodiless", Reuse: true, Upload: true, Bodiless: true},
+	{Name: "send-header-fails", Reuse: true, Upload: true, BadHost: true},
+}
+
 var retrySpecs = []retrySpec{
 	{Name: "sleep-after-1", Max: 3, LongWait: true, Attempts: 1, InSleep: true},
 	{Name: "sleep-after-2-unlimited", Max: -1, LongWait: true, Attempts: 2, InSleep: true},
@@ -75,6 +84,7 @@ func allJobs() []job {
 	add("h1", len(h1specs))
 	add("h2", len(h2specs))
 	add("retry", 1)
+	add("h3", len(h3specs))
 	return js
 }
 
@@ -152,6 +162,27 @@ func runJob(j job, seed uint64, quick bool) (out []result) {
 			}
 			add(runH2(sp, "cancel", pos, true))
 		}
+	case "h3":
+		sp := h3specs[j.Idx]
+		add := func(o h3obs) { out = append(out, result{H3: &o}) }
+		if sp.BadHost {
+			add(runH3(sp, "none", 0, false))
+			return
+		}
+		steps := h3steps(sp)
+		n := len(steps)
+		add(runH3(sp, "none", n, false))
+		for pos := 0; pos <= n; pos++ {
+			for _, k := range kindsAt(pos, seed, quick) {
+				add(runH3(sp, k, pos, false))
+			}
+		}
+		for pos := 1; pos <= n; pos++ {
+			if len(steps[pos-1].labels) == 0 || rng.Intn(racyEvery) != 0 {
+				continue
+			}
+			add(runH3(sp, "cancel", pos, true))
+		}
 	case "retry":
 		for _, sp := range retrySpecs {
 			for _, kind := range []string{"cancel", "deadline"} {
@@ -169,6 +200,8 @@ func jobName(j job) string {
 		return "h1:" + h1specs[j.Idx].Name
 	case "h2":
 		return "h2:" + h2specs[j.Idx].Name
+	case "h3":
+		return "h3:" + h3specs[j.Idx].Name
 	}
 	return j.Fam
 }
@@ -276,6 +309,8 @@ func runC08(r *hk.Run) {
 				recordH2(r, *x.H2)
 			case x.Retry != nil:
 				recordRetry(r, *x.Retry)
+			case x.H3 != nil:
+				recordH3(r, *x.H3)
 			}
 		}
 	}
